@@ -16,11 +16,14 @@ TECHNIQUE = (
     "virtual-time event loop against gallia's RandomUDSServer built from generated seeds and randomness parameters; the transport "
     "logs every request with the ECU session before/after and the reply.  The oracle is computed from that log and the server's own "
     "service model only: which service ids / identifiers were probed, in which ECU session, with which PDU layout, how the ECU "
-    "answered; it is compared with ServicesScanner.result and with the result-tagged tallies of ScanIdentifiers"
+    "answered; it is compared with ServicesScanner.result and with the result-tagged tallies of ScanIdentifiers.  A share of the "
+    "service scans runs against an ECU that silently discards under-length requests of implemented services (per session and service "
+    "a minimum payload length of 2, 3 or 5 bytes, vf/ecu_models.py InProcessTransport(mute=...)) and answers longer ones normally: "
+    "for every service id the probing must go on through the lengths 1,2,3,5 until a not-supported or a meaningful answer arrives"
 )
 LEVEL_TEXT = (
     "Exploration: seeded virtual ECUs (p_session 0.3..1, p_service 0.1..0.6, p_identifier 0.05..0.4, with and without "
-    "generalReject for handler-less services) x session lists (range grammar and explicit order, incl. sessions the ECU does not "
+    "generalReject for handler-less services, with and without silently discarded under-length requests of implemented services) x session lists (range grammar and explicit order, incl. sessions the ECU does not "
     "have or cannot enter) x skip maps in the two-dimensional range grammar x scan_response_ids x check-session x reset; identifier "
     "scans for services 0x22/0x27/0x2E/0x31 over ranges of 64..1024 identifiers around 0x0000, 0x007F, 0xF186, 0xFFFF with payloads, "
     "check-session intervals, skip maps, skip-not-supported; ECU-side session drop-outs (with check-session) and lost replies "
@@ -32,7 +35,7 @@ LEVEL_NOTE = (
 )
 RULE = (
     "cases = (server seed, randomness parameters, behaviour switches, scanner kind, session list, skip map, option flags, identifier "
-    "range, scanned service, payload, check-session interval, drop-out / loss positions, run mode); non-trivial = the ECU answers at "
+    "range, scanned service, payload, check-session interval, drop-out / loss positions, minimum-length map of the ECU, run mode); non-trivial = the ECU answers at "
     "least one probe with something else than serviceNotSupported (services) resp. at least one identifier positively or the scan "
     "covers more than one session (identifiers); distinct = distinct case tuples; distinct_traces = distinct ECU-side logs"
 )
@@ -42,6 +45,9 @@ ASSUMPTIONS = [
     "ECU-side session drop-outs are injected only with check-session on and directly after a probe; probes between a drop-out and the next session check are not held against the scanner",
     "with service 0x22, no payload and check-session on, requests '22 F1 86' are not attributed (probe and session check are byte-identical on the ECU side); only the tally counts that identifier",
     "a reply lost in transit is a timeout for the client: 'exactly once modulo retries' allows retransmissions only after an undelivered reply",
+    "min-length ECUs never discard the scanner's own session handling (services 0x10, 0x11, 0x22, 0x3E are exempt); a discarded request has no effect on the ECU state; "
+    "when the probing of a service id stops early, a fresh copy of the model put into that session is asked the remaining probe lengths only to NAME the violation "
+    "(missed-service vs probe-lengths-not-exhausted), both are violations",
 ]
 EXHAUSTIVE = {"quick": False, "thorough": False}
 EXHAUSTIVE_NOTE = ""
@@ -76,6 +82,8 @@ def required_reach(tier: str) -> dict[str, int]:
         "services.reset": 10, "services.session-refused": 10, "services.reply.nrc-13": 100, "services.reply.nrc-7f": 100,
         "services.reply.nrc-11": 1000, "services.reply.silence": 20, "services.dropout-recovered": 5, "services.full-run": 10,
         "services.sessions-none": 5, "services.found-at-length>1": 50,
+        # ECU models that silently discard under-length requests of implemented services and answer the longer probes
+        "services.min-length-ecu": 50, "services.sid-with-silent-probe": 200, "services.found-after-silence.min-length-ecu": 60,
         "identifiers.scans": 100, "identifiers.windows": 120, "identifiers.non-default-session-scanned": 30,
         "identifiers.positive": 500, "#identifiers.service:": 4, "#identifiers.positive.service:": 4, "identifiers.skip-map-used": 15,
         "identifiers.check-session": 20, "identifiers.boundary.0000": 5, "identifiers.boundary.f186": 5, "identifiers.boundary.ffff": 5,
@@ -254,8 +262,29 @@ def gen_services_case(rng: Any) -> dict[str, Any]:
         "skip": {str(k): v for k, v in skip.items()}, "skip_expr": render_skip(rng, skip) if skip else [],
         "full": (not dropouts) and rng.random() < 0.25,
         "dropouts": sorted(rng.sample(range(1, 600), rng.randint(1, 4))) if dropouts and sessions else [],
+        "mute": gen_mute(rng, srv) if rng.random() < 0.4 else {},
     })
     return case
+
+
+MUTE_EXEMPT = (0x10, 0x11, 0x22, 0x3E)  # session handling of the scanner itself: session change, reset, session read, tester present
+
+
+def gen_mute(rng: Any, srv: Any) -> dict[str, dict[str, int]]:
+    """ECU that silently discards under-length requests: per session a random subset of the implemented services gets a minimum
+    payload length (2, 3 or 5 bytes after the service id); shorter requests get no reply at all, longer ones are answered normally"""
+    mute: dict[str, dict[str, int]] = {}
+    for s, sids in sorted(model_of(srv).items()):
+        cand = sorted(x for x in sids if x not in MUTE_EXEMPT)
+        if not cand or rng.random() < 0.15:
+            continue
+        k = max(1, round(len(cand) * rng.uniform(0.2, 0.8)))
+        mute[str(s)] = {str(sid): rng.choice([2, 3, 5]) for sid in rng.sample(cand, min(k, len(cand)))}
+    return mute
+
+
+def mute_map(case: dict[str, Any]) -> dict[tuple[int, int], int]:
+    return {(int(s), int(sid)): int(m) for s, d in (case.get("mute") or {}).items() for sid, m in d.items()}
 
 
 async def scan_services(case: dict[str, Any]) -> dict[str, Any]:
@@ -264,7 +293,7 @@ async def scan_services(case: dict[str, Any]) -> dict[str, Any]:
 
     srv = make_server(case)
     tr = em.InProcessTransport(srv, budget=200_000, dropouts=set(case["dropouts"]),
-                               drop_filter=lambda q: len(q) >= 2 and not any(q[1:]) and q[0] != 0x3E)
+                               drop_filter=lambda q: len(q) >= 2 and not any(q[1:]) and q[0] != 0x3E, mute=mute_map(case))
     cap = em.fresh_capture()
     opts: dict[str, Any] = {"sessions": case["sessions_opt"], "check_session": case["check_session"], "scan_response_ids": case["scan_response_ids"],
                             "reset": case["reset"], "skip": list(case["skip_expr"]) if case["skip_expr"] else {}}
@@ -272,6 +301,26 @@ async def scan_services(case: dict[str, Any]) -> dict[str, Any]:
     out = await em.run_scanner(sc, tr, case["full"])
     out.update({"result": list(sc.result), "log": tr.log, "lost": set(tr.lost), "records": list(cap.results), "problems": list(cap.problems),
                 "cfg_sessions": sc.config.sessions, "cfg_skip": sc.config.skip, "model": model_of(srv), "n_dropouts": tr.n_dropouts})
+    return out
+
+
+async def probe_fresh(case: dict[str, Any], session: int, sid: int, lengths: list[int]) -> dict[int, str]:
+    """what a fresh copy of the ECU model, put into `session`, answers to the zero probes of `sid` with the given payload lengths"""
+    from gallia.services.uds.server import UDSServerTransport
+    from vf import ecu_models as em
+
+    mute = mute_map(case)
+    out: dict[int, str] = {}
+    for n in lengths:
+        srv = make_server(case)
+        srv.state.session = session
+        q = bytes([sid]) + bytes(n)
+        need = mute.get((session, sid))
+        if need is not None and n < need:
+            out[n] = "silence"
+            continue
+        reply, _ = await UDSServerTransport(srv, em.TargetURI(em.TARGET)).handle_request(q)
+        out[n] = reply_class(q, reply)
     return out
 
 
@@ -286,9 +335,13 @@ def check_services(ctx: Any, case: dict[str, Any]) -> None:
     sessions = list(case["sessions"])
     given = case["sessions_opt"] is not None
     ident = ("services", case["server_seed"], sorted(case["rp"].items()), case["behavior_off"], case["sessions_opt"], case["check_session"],
-             case["scan_response_ids"], case["reset"], case["skip_expr"], case["full"], case["dropouts"])
+             case["scan_response_ids"], case["reset"], case["skip_expr"], case["full"], case["dropouts"], sorted(mute_map(case).items()))
     w: dict[str, Any] = {k: case[k] for k in ("kind", "server_seed", "rp", "behavior_off", "sessions_opt", "sessions", "check_session", "scan_response_ids",
                                             "reset", "skip", "skip_expr", "full", "dropouts")}
+    w["mute"] = case.get("mute") or {}
+    mute = mute_map(case)
+    if mute:
+        ctx.reach("services.min-length-ecu")
     try:
         out = vtime.run(scan_services(case))
     except vtime.Deadlock:
@@ -445,6 +498,33 @@ def check_services(ctx: Any, case: dict[str, Any]) -> None:
         if found_gt:
             any_found = True
         ctx.reach("services.found", len(found_gt))
+        # every probe length is tried until the ECU gives a terminal answer (not-supported ends the probing of a service id, a
+        # meaningful answer is the finding); silence and length errors are no reason to give up on the longer probes
+        for sid, ps in probes.items():
+            if sid not in Eset or aborted:
+                continue
+            classes = [reply_class(p[1], p[2], p[3]) for p in ps]
+            if "silence" in classes:
+                ctx.reach("services.sid-with-silent-probe")
+                k = next((j for j, c in enumerate(classes) if c not in ("silence", "nrc-11", "nrc-7f", "nrc-13")), None)
+                if k is not None and "silence" in classes[:k]:
+                    ctx.reach("services.found-after-silence")
+                    if mute.get((real_S, sid)) is not None:
+                        ctx.reach("services.found-after-silence.min-length-ecu")
+            if any(c not in ("silence", "nrc-13") for c in classes):
+                continue
+            tried = {len(p[1]) - 1 for p in ps}
+            missing = [n for n in LENGTHS if n not in tried]
+            if not missing:
+                continue
+            would = vtime.run(probe_fresh(case, real_S, sid, missing))
+            wp = {**ww, "sid": sid, "probes": [(p[1], p[2]) for p in ps], "lengths_never_sent": missing, "fresh_ecu_answers": would}
+            if any(c not in ("silence", "nrc-11", "nrc-7f", "nrc-13") for c in would.values()):
+                ctx.violation("services/missed-service/answers-only-longer-probe", "the probing of a service id was given up after an unanswered / length-error probe; the ECU answers a longer "
+                              "probe length of that service with something other than not-supported / length error, the service is not reported", wp)
+            else:
+                ctx.violation(f"services/probe-lengths-not-exhausted/after-{'silence' if classes[-1] == 'silence' else 'nrc-13'}", "the probing of a service id was given up after an unanswered / "
+                              "length-error probe although further probe lengths remain", wp)
         for sid in sorted(set(found_gt) - got):
             ctx.violation(f"services/false-negative/{found_gt[sid] if found_gt[sid].startswith('nrc') else 'positive'}",
                           "the ECU answered a probe with something other than not-supported / length error, the service is not reported", {**ww, "sid": sid, "probes": [(p[1], p[2]) for p in probes[sid]]})
